@@ -73,7 +73,7 @@ func newClientWithPort(proto int, groups uint32, cap *capture) (*libaudit.Netlin
 
 func receiveEcho(c *libaudit.NetlinkClient, cap *capture) (ret string, typ int, data []byte, raw []byte) {
 	cap.last = nil
-	for tries := 0; tries < 200; tries++ {
+	for tries := 0; tries < 5000; tries++ {
 		msgs, err := c.Receive(true, libaudit.VerifParseAuditMessage)
 		if err == syscall.EAGAIN || err == syscall.EINTR {
 			time.Sleep(time.Millisecond)
@@ -258,7 +258,7 @@ func netlinkCasesCmd(args []string) int {
 						var msgs []syscall.NetlinkMessage
 						var rerr error
 						delivered := false
-						for tries := 0; tries < 200; tries++ {
+						for tries := 0; tries < 5000; tries++ {
 							msgs, rerr = uc.Receive(true, func(b []byte) ([]syscall.NetlinkMessage, error) {
 								called = true
 								return libaudit.VerifParseAuditMessage(b)
